@@ -12,6 +12,8 @@ structure Slot where
   fresh : Bool
   epoch : Nat
   broken : Bool      -- the iterator panicked: no further use
+  lit : LIter        -- the same iterator with the up/down state read at every call (`Policies.LIter`)
+  stch : Bool        -- the state of some host object changed since `open`: `it` (state fixed at `open`) no longer applies
 
 /-- a burst that was applied in op-line order and waits for its `settle` line -/
 structure Pending where
@@ -198,7 +200,7 @@ def St.burst (s : St) (calls : List String) : St × String :=
   setpart                                          SetPartitioner(OrderedPartitioner) after reset (late partitioner)
   islocal <id>                                     IsLocal(host) [HostTier/MaxHostTier for a HostTierer]
   addhosts <id,id,...>                             AddHosts([...]) (token-aware policy; AddHost per host otherwise: Session.init)
-  state <id> <1|0>                                 setState(NodeUp|NodeDown); ends the life of all iterators
+  state <id> <1|0>                                 setState(NodeUp|NodeDown); live iterators go on (they read the state at every call)
   repl <ks> <tok>:<ids> ...                        install the replica table of a keyspace (hook)
   pick <ks|-> <tok|-> <limit> <perm;perm;...|->    Pick + up to <limit> iterator calls → ids offered
   ctr <n>                                          the (fallback) policy has served n picks (VerifSetPickCount)
@@ -268,10 +270,11 @@ def step (s : St) (ws : List String) : St × String :=
     | none => (s, "bad-op")
     | some sl =>
       if sl.broken then (s, "bad-op") else
-      if sl.epoch != s.epoch || s.offerExcluded sl.reps sl.fresh then (s, "excluded")
+      if sl.epoch != s.epoch || sl.stch || s.offerExcluded sl.reps sl.fresh then (s, "excluded")
       else
         let r := s.t.nextN s.up sl.it 1000
-        let sl' := { sl with it := r.2.1, broken := r.2.2.2 == some Next.panic }
+        let rl := s.t.nextLN s.up sl.lit 1000
+        let sl' := { sl with it := r.2.1, lit := rl.2.1, broken := r.2.2.2 == some Next.panic }
         ({ s with t := r.1, slots := sl' :: s.slots.filter (fun x => x.id != sl.id) }, s.specOffer)
   | "gburst" :: gate :: calls =>
     -- a GATED burst: the same calls, run under the schedule "every call parked at its first read of host <gate>
@@ -320,7 +323,9 @@ def step (s : St) (ws : List String) : St × String :=
       (s', snapshot s')
   | ["state", id, v] =>
     if (s.host? (nat id)).isNone then (s, "bad-op") else
-    ({ s with down := if v == "1" then s.down.filter (· != nat id) else nat id :: s.down.filter (· != nat id), slots := [] }, "ok")
+    -- (w-s11f) live iterators stay alive: they read the state at every call (`LIter`)
+    ({ s with down := if v == "1" then s.down.filter (· != nat id) else nat id :: s.down.filter (· != nat id),
+              slots := s.slots.map (fun sl => { sl with stch := true }) }, "ok")
   | "repl" :: ks :: tab =>
     let t' : TA := if s.t.partSet then s.t.setReplicas (nat ks) (parseTable s tab) else s.t
     (bump { s with t := t', inj := if s.t.partSet then nat ks :: s.inj.filter (· != nat ks) else s.inj }, "ok")
@@ -362,19 +367,24 @@ def step (s : St) (ws : List String) : St × String :=
     let rk := parseRk ks tok
     let rf := s.repsOf σ rk
     let (t', it) := s.t.openIter s.up σ rk
-    ({ s with t := t', slots := ⟨nat slot, it, rf.1, rf.2, s.epoch, false⟩ :: s.slots.filter (fun x => x.id != nat slot) }, "ok")
+    let (_, lit) := s.t.openL σ rk
+    ({ s with t := t', slots := ⟨nat slot, it, rf.1, rf.2, s.epoch, false, lit, false⟩ :: s.slots.filter (fun x => x.id != nat slot) }, "ok")
   | ["next", slot, n] =>
     match s.slots.find? (fun x => x.id == nat slot) with
     | none => (s, "bad-op")
     | some sl =>
       if sl.broken then (s, "bad-op") else
+      -- the answer is the LAZY iterator's (state read now); while no state changed since `open` the eager iterator
+      -- must agree with it - offered hosts, how the calls ended, the policy's counter (cross-check of the two models)
+      let rl := s.t.nextLN s.up sl.lit (nat n)
       let r := s.t.nextN s.up sl.it (nat n)
-      let sl' := { sl with it := r.2.1, broken := r.2.2.2 == some Next.panic }
-      let s' := { s with t := r.1, slots := sl' :: s.slots.filter (fun x => x.id != sl.id) }
-      (s', match r.2.2.2 with
+      let agree := sl.stch || (r.2.2.1 == rl.2.2.1 && r.2.2.2 == rl.2.2.2 && r.1.pol.ctr == rl.1.pol.ctr)
+      let sl' := { sl with it := r.2.1, lit := rl.2.1, broken := rl.2.2.2 == some Next.panic }
+      let s' := { s with t := rl.1, slots := sl' :: s.slots.filter (fun x => x.id != sl.id) }
+      (s', if !agree then "model-mismatch:lazy-vs-eager-iterator" else match rl.2.2.2 with
         | some Next.panic => "crash:index-out-of-range"
-        | some _ => showIds r.2.2.1 ++ " end"
-        | none => showIds r.2.2.1)
+        | some _ => showIds rl.2.2.1 ++ " end"
+        | none => showIds rl.2.2.1)
   | _ => (s, "bad-op")
 
 end Driver.C11
